@@ -587,6 +587,10 @@ def run(prog, rep, tier='quick', config='default'):
                     rep.violation('R5a', k, where=where, fn=fn.name, detail=desc + ' is not within %s%s' % (sname(want), extra))
     rep.extra['constrained_unwrap_sites'] = len(sites)
 
+    r5b(prog, rep)
+
+
+def r5b(prog, rep, require_floor=True):
     # ------------------------------------------------------------------ R5b
     n_p = 0
     n_u = 0
@@ -618,10 +622,23 @@ def run(prog, rep, tier='quick', config='default'):
                                      'producing a diagnostic' % (pcall.callee, pcall.where(), c.short))
     n_rx = regex_patterns(prog, rep)
     rep.extra['regex_pattern_sites'] = n_rx
-    if n_p < 30:
+    if not require_floor:
+        pass
+    elif n_p < 30:
         rep.violation('R5b', 'anchor-lost:parser-calls', detail='anchor lost: only %d parser call sites recognised' % n_p)
     else:
         rep.ok('R5b', 'parser-results-never-unwrapped', fn='(all product crates)',
                detail='%d parser call sites, %d unwrap/expect sites examined: no parser result on non-constant text reaches unwrap/expect' % (n_p, n_u))
     rep.extra['parser_call_sites'] = n_p
     rep.extra['unwrap_sites_examined'] = n_u
+
+
+def fixture():
+    import facts
+    import check
+    prog = mir.Program(facts.ensure_fixture())
+    rep = check.Report('C05')
+    r5b(prog, rep, require_floor=False)
+    bad = sorted({o.fn for o in rep.obs if o.status == check.VIOLATION})
+    want = ['@verif_fixture_pos::bad_unwrap_user_number']
+    return {'ok': bad == want, 'reported': bad, 'expected': want}
